@@ -188,6 +188,6 @@ KeepsScanning == []<>(~Running \/ ch = "scan")
 
 \* ------------------------------------------------------------------------------ export (spec -> code)
 Proj == [fs |-> fs, rec |-> rec, ch |-> ch, par |-> par, spawns |-> spawns, ccode |-> ccode, pcode |-> pcode,
-         stage |-> stage, todo |-> todo, budget |-> budget, cls |-> cls]
+         stage |-> stage, todo |-> todo, budget |-> budget, cls |-> cls, trig |-> trig, first |-> first, held |-> held]
 Export == PrintT(ToJson([pre |-> Proj, act |-> act', post |-> Proj']))
 =============================================================================
